@@ -263,6 +263,20 @@ pub fn c07_share(c: &FuCtx, rec: &mut Rec) {
             }
         }
     }
+    // ... and nothing but taking LP out of open positions lowers it: an operation after which the user's open LP in a token
+    // is at least what it was leaves the user's next-epoch weight at least what it was
+    if c.out.is_ok() && !matches!(c.op, FuOp::Advance { .. } | FuOp::Base) {
+        for u in 0..N_USERS {
+            for li in 0..c.post.lps.len() {
+                let open = |o: &FuObs| -> u128 { o.positions.iter().filter(|p| p.open && p.receiver == c.w.users[u] && p.lp_asset.denom == o.lps[li]).map(|p| p.lp_asset.amount.u128()).sum() };
+                let (o0, o1) = (open(c.pre), open(c.post));
+                let (w0, w1) = (c.pre.weight(u, li, c.pre.cur + 1), c.post.weight(u, li, c.post.cur + 1));
+                if o1 >= o0 && o0 > 0 && w1 < w0 {
+                    rec.viol("C07_weight_lost_without_unstaking", format!("{:?}: user {u} lp{li} keeps {o1} LP open (before: {o0}) but the weight for the next epoch went {w0} -> {w1}", c.op));
+                }
+            }
+        }
+    }
     let FuOp::Claim { u, until } = c.op else { return };
     let Some(exp) = &c.expected else { return };
     if !c.out.is_ok() {
@@ -322,6 +336,30 @@ pub fn c07_diamond(chk: &FuChecker, w: &mut World, g: &FuGhost, rec: &mut Rec) {
         let mid = bal(w);
         let still_open = observe(w).positions.iter().any(|p| p.open && p.receiver == user);
         if !still_open {
+            // o ended A's participation (A cannot claim afterwards). Leaving must not forfeit anything that claiming first
+            // would have paid: c; o must give A in total what o alone gives (the contract refuses such an o while rewards
+            // are pending; the emergency exit, which forfeits by documented design, is not among the operations tried)
+            let o_alone: Vec<i128> = (0..denoms.len()).map(|i| mid[i] as i128 - b0[i] as i128).collect();
+            for cl in &claims {
+                w.restore(&snap);
+                let a0 = bal(w);
+                if !apply(w, cl).is_ok() {
+                    continue;
+                }
+                if !apply(w, o).is_ok() {
+                    rec.count("c07_diamond_op_disabled_by_claim");
+                    continue;
+                }
+                let a2 = bal(w);
+                rec.count("c07_leaving_diamonds");
+                rec.validated += 1;
+                for i in 0..denoms.len() {
+                    let with_claim = a2[i] as i128 - a0[i] as i128;
+                    if with_claim != o_alone[i] {
+                        rec.viol("C07_schedule_dependent", format!("{}: {:?} ends the user's participation; after {:?} it leaves them {with_claim} in total, without claiming first only {} (the difference can never be claimed)", denoms[i], o, cl, o_alone[i]));
+                    }
+                }
+            }
             continue;
         }
         let r2 = apply(w, &FuOp::Claim { u, until: None });
@@ -811,7 +849,7 @@ pub fn jobs_c05(tier: Tier) -> Vec<Job> {
 pub fn jobs_c06(tier: Tier) -> Vec<Job> {
     let mut r = FuChecker::new("c06-fu-reward", vec!["F1", "F2", "F3", "F7", "F9", "F11"], FAlpha::Reward, vec![c06_rewards]);
     r.state_oracles = vec![c06_claimable];
-    let mut core = FuChecker::new("c06-fu-core", vec!["F2", "F3"], FAlpha::RewardCore, vec![c06_rewards]);
+    let mut core = FuChecker::new("c06-fu-core", vec!["F2", "F3", "F13"], FAlpha::RewardCore, vec![c06_rewards]);
     core.state_oracles = vec![c06_claimable];
     let mut many = FuChecker::new("c06-fu-manyfarms", vec!["F6"], FAlpha::RewardCore, vec![c06_rewards]);
     many.max_farms = 12;
@@ -820,7 +858,7 @@ pub fn jobs_c06(tier: Tier) -> Vec<Job> {
 }
 pub fn jobs_c07(tier: Tier) -> Vec<Job> {
     let r = FuChecker::new("c07-fu-reward", vec!["F1", "F2", "F3", "F7", "F9", "F11"], FAlpha::Reward, vec![c07_share]);
-    let mut d = FuChecker::new("c07-fu-diamond", vec!["F2", "F3"], FAlpha::RewardCore, vec![c07_share]);
+    let mut d = FuChecker::new("c07-fu-diamond", vec!["F2", "F3", "F13"], FAlpha::RewardCore, vec![c07_share]);
     d.state_oracles = vec![c07_diamond];
     let mut many = FuChecker::new("c07-fu-manyfarms", vec!["F6"], FAlpha::RewardCore, vec![c07_share, c06_rewards]);
     many.max_farms = 12;
@@ -844,7 +882,7 @@ pub fn jobs_c11(tier: Tier) -> Vec<Job> {
         c.reward_denoms = vec![rd];
         v.push(explore_job(c, tier.pick(3, 5), Caps::default()));
     }
-    let full = FuChecker::new("c11-fu-full", vec!["F2", "F3"], FAlpha::Full, vec![c11_farms]);
+    let full = FuChecker::new("c11-fu-full", vec!["F2", "F3", "F12"], FAlpha::Full, vec![c11_farms]);
     v.push(explore_job(full, tier.pick(2, 3), Caps::default()));
     // eleven farms on one LP token under a limit of twelve: the twelfth creation is accepted, the thirteenth is not
     let mut many = FuChecker::new("c11-fu-manyfarms", vec!["F6"], FAlpha::Farms, vec![c11_farms]);
